@@ -693,6 +693,8 @@ class CSemantics:
     def on_number(self, value, location):
         """React on integer numeric literal"""
         # Get value from string:
+        # Note: unsuffixed decimal literals never get an unsigned type
+        is_decimal = value[0] != "0"
         value, type_specifiers = utils.cnum(value)
 
         assert isinstance(value, int)
@@ -709,11 +711,11 @@ class CSemantics:
 
             if value <= self.context.limit_max(self.int_type):
                 typ = self.int_type
-            elif value <= self.context.limit_max(uint_type):
+            elif value <= self.context.limit_max(uint_type) and not is_decimal:
                 typ = uint_type
             elif value <= self.context.limit_max(long_type):
                 typ = long_type
-            elif value <= self.context.limit_max(ulong_type):
+            elif value <= self.context.limit_max(ulong_type) and not is_decimal:
                 typ = ulong_type
             elif value <= self.context.limit_max(longlong_type):
                 typ = longlong_type
